@@ -527,7 +527,8 @@ class Env:
                 raise RuntimeError("harness API task failed: %r" % (t.exception(),))
         for t in tasks:
             t.cancel()
-        await asyncio.sleep(0)
+        for _ in range(4):
+            await asyncio.sleep(0)
 
     def result(self):
         lg = logging.getLogger("pyairtouch.comms.socket")
